@@ -205,7 +205,7 @@ package task
 //@   ensures depsErr != nil && depsExit && !call.Indirect ==> dyn(result) == type(*errors.TaskRunError) && as(result, type(*errors.TaskRunError)).Err == depsErr   [C03]
 //@   init promptDeclined := false
 //@   site (*Logger).Prompt#1 ghost promptDeclined := result != nil
-//@   loop 1 invariant !promptDeclined
+//@   loop 1 invariant !promptDeclined                                                                  [C13]
 //@   ensures promptDeclined ==> result != nil      -- a declined prompt (or no terminal) fails the task   [C13]
 //@   requires platformOK(call) && requiredOK(call) && enumOK(call)
 //@   site (*Executor).areTaskPreconditionsMet#1 ghost set precondsOK(call) if result.0 && result.1 == nil
